@@ -76,6 +76,7 @@ PROPS = {
             "Replicon.C03.C03_despawn_sent",
             "Replicon.C03.C03_entity_record_complete",
             "Replicon.C03.C03_marker",
+            "Replicon.C03.C03_history_server_order",
         ],
         "profiles": [{"name": "sys", "shards": {"thorough": 8}}, {"name": "sys_vis", "shards": {"thorough": 8}}],
         "rule": SYS_RULE + LOCK + "For C03: oracle on the implementation after every client frame: the client's mapped entities (a consistent two-way map), their replicated component sets and markers equal the server snapshot at the client's ServerUpdateTick restricted to what is visible to it (placeholders created only by references / pre-spawn mappings excepted).",
@@ -438,7 +439,7 @@ MANIFEST_TEXT = {
         "technique": "Lean 4 proof (per-run theorems about executable server/client protocol models) + lock-step model/implementation correspondence on real traces + property oracle on the implementation",
     },
     "C03": {
-        "text": "Lean theorems about the protocol models: ServerUpdateTick is the tick of the last applied update message and never decreases for in-order messages; a hidden entity contributes nothing; an entity new to the client is sent whole in one record; a visible entity that left replication is in DESPAWNS; an entity with an insertion/removal gets its pending mutations in the same record; the target of a CHANGES record is marked. The end-to-end 'structure = view at update tick' (C03_structure_partial) is checked as an oracle on the implementation after every client frame, with both models in lock step.",
+        "text": "Lean theorems about the protocol models: ServerUpdateTick is the tick of the last applied update message and never decreases for in-order messages; a hidden entity contributes nothing; an entity new to the client is sent whole in one record; a visible entity that left replication is in DESPAWNS; an entity with an insertion/removal gets its pending mutations in the same record; the target of a CHANGES record is marked. Server order over ALL histories of the joint server model (C03_history_server_order): an update message sent to a client carries a tick larger than every update message sent to it before in its session. The end-to-end 'structure = view at update tick' (C03_structure_partial) is checked as an oracle on the implementation after every client frame, with both models in lock step.",
         "design_ref": "DESIGN.md §7 C03",
         "note": 'partial: update_is_diff for every reachable server state is not proved as one theorem; per-section theorems + exact correspondence + oracle.',
         "technique": "Lean 4 proof (per-run theorems about executable server/client protocol models) + lock-step model/implementation correspondence on real traces + property oracle on the implementation",
